@@ -7,7 +7,7 @@ import time
 from mc.core import Agg
 
 
-def bfs(ctx, expand, roots, cap_s=None, max_depth=None, label=""):
+def bfs(ctx, expand, roots, cap_s=None, max_depth=None, label="", max_states=200000):
     """expand(hist) -> dict(unit result, 'self': canon, 'path': hist, 'succ': [(canon, hist)])
     roots: list of initial histories (tuples).  Returns (Agg, seen dict canon->hist)."""
     agg = Agg()
@@ -24,6 +24,10 @@ def bfs(ctx, expand, roots, cap_s=None, max_depth=None, label=""):
         if cap_s is not None and time.time() - t0 > cap_s:
             agg.exhaustive = False
             agg.caps.append(f"{label}: wall cap {cap_s}s hit at depth {depth} with {len(frontier)} unexpanded states (all depths < {depth} fully expanded)")
+            break
+        if len(seen) > max_states:
+            agg.exhaustive = False
+            agg.caps.append(f"{label}: state cap {max_states} exceeded at depth {depth} (state space not closing: hidden state that grows without bound?)")
             break
         cand = []
         for r in ctx.pmap(expand, frontier, chunksize=max(1, len(frontier) // (ctx.workers * 8))):
